@@ -272,15 +272,17 @@ type Snap struct {
 	Dog    *DogState
 	Epochs map[string]epochstypes.EpochInfo
 	AVS    map[string]avstypes.AVSInfo
+	Supply sdkmath.Int // total supply of the base denom
 	Height int64
 }
 
-var LedgerStores = []string{"assets", "delegation", "operator", "dogfood", "avs", "oracle", "reward", "exoslash", "epochs"}
+var LedgerStores = []string{"assets", "delegation", "operator", "dogfood", "avs", "oracle", "reward", "exoslash", "epochs", "feedistribution", "exomint"}
 
 func (c *Chain) Snapshot() *Snap {
 	ctx := c.Ctx()
 	raw := c.DumpStores(ctx, LedgerStores)
 	s := &Snap{Raw: raw, Ledger: c.ParseLedger(ctx, raw), Op: ParseOpState(raw), Dog: ParseDogState(raw), AVS: ParseAVS(raw), Height: c.Height(), Epochs: map[string]epochstypes.EpochInfo{}}
+	s.Supply = c.App.BankKeeper.GetSupply(ctx, utils.BaseDenom).Amount
 	for k, v := range raw["epochs"] {
 		if len(k) > 0 && k[0] == epochstypes.KeyPrefixEpoch[0] {
 			var e epochstypes.EpochInfo
